@@ -1,9 +1,19 @@
-// lockset: syntactic fact extractor (go/ast only) for C09's lockset theorem.
-// usage: lockset <dir of package lib> <out.lean>
-// For every function of the package (non-test files) it records which mutex mode it takes on a
-// RegisteredDecoys (`<x>.m.Lock()` / `<x>.m.RLock()`), which protected fields it reads or writes
-// (selectors named decoys / decoysTimeouts / Valid / regCount), and which package functions/methods
-// it calls. The Lean side decides that every access happens under (or is only reachable under) the lock.
+// lockset: syntactic fact extractor (go/ast only) for C09's lockset theorems.
+// usage: lockset <dir of package> [<dir>…] <out.lean>
+//
+// For every function (and every `go func(){…}` closure, which is a row of its own) of the packages'
+// non-test files it records
+//   - the LOCK-OPERATION PROGRAM: each acquisition `<x>.<mu>.Lock()` / `RLock()` of a tracked mutex
+//     must be a statement that is either directly followed by `defer <x>.<mu>.Unlock()` (region = up to
+//     the end of the function) or paired with a later `<x>.<mu>.Unlock()` in the same statement list
+//     with nothing in between that can leave the region (return / break / continue / goto / panic / go /
+//     another operation on the same mutex); anything else — an unmatched Unlock, a lock taken inside
+//     an expression, a second acquisition inside a region — makes the row `structured := false`;
+//   - every access to a protected field (selector named decoys / decoysTimeouts / Valid / regCount /
+//     status / registrationTime / …) with whether it is a write and the mode in which the function
+//     itself holds the guarding mutex AT THAT POSITION;
+//   - every call of a package function / method (by short name) with the mutexes held at the call.
+// The Lean side decides that every access happens under (or is only reachable under) the lock.
 package main
 
 import (
@@ -19,20 +29,316 @@ import (
 // protected field -> name of the mutex field that guards it
 var protected = map[string]string{
 	"decoys": "m", "decoysTimeouts": "m", "Valid": "m", "regCount": "m",
+	"status": "m", "registrationTime": "m",
 	"PhantomSelector": "reloadMu", "GeoIP": "reloadMu",
 	"covertBlocklistSubnets": "policyMu", "covertAllowlistSubnets": "policyMu", "enableCovertAllowlist": "policyMu",
 	"covertBlocklistDomains": "policyMu", "phantomBlocklist": "policyMu",
+	"generations": "genMutex", "lvStats": "lvMutex", "ttStats": "ttMutex",
 }
 
-var mutexes = map[string]bool{"m": true, "reloadMu": true, "policyMu": true}
+var mutexes = map[string]bool{"m": true, "reloadMu": true, "policyMu": true, "genMutex": true, "lvMutex": true, "ttMutex": true}
+
+var muOrder = []string{"m", "policyMu", "reloadMu", "genMutex", "lvMutex", "ttMutex"}
+
+type region struct {
+	mu, mode string
+	from, to token.Pos
+}
+
+type access struct {
+	field string
+	write bool
+	held  string
+}
+
+type call struct {
+	callee string
+	held   map[string]string
+	pos    token.Pos
+}
 
 type row struct {
-	name   string
-	locks  map[string]string // mutex field -> "R" | "W"
-	lock   string
-	reads  map[string]bool
-	writes map[string]bool
-	calls  map[string]bool
+	name       string
+	regions    []region
+	accesses   []access
+	calls      []call
+	structured bool
+}
+
+// lockOp recognises `<x>.<mu>.<Lock|RLock|Unlock|RUnlock>()` on a tracked mutex.
+func lockOp(e ast.Expr) (mu, op string, ok bool) {
+	c, isCall := e.(*ast.CallExpr)
+	if !isCall {
+		return
+	}
+	sel, isSel := c.Fun.(*ast.SelectorExpr)
+	if !isSel {
+		return
+	}
+	inner, isSel := sel.X.(*ast.SelectorExpr)
+	if !isSel || !mutexes[inner.Sel.Name] {
+		return
+	}
+	switch sel.Sel.Name {
+	case "Lock", "RLock", "Unlock", "RUnlock":
+		return inner.Sel.Name, sel.Sel.Name, true
+	}
+	return
+}
+
+func stmtLockOp(s ast.Stmt) (mu, op string, ok bool) {
+	if es, isExpr := s.(*ast.ExprStmt); isExpr {
+		return lockOp(es.X)
+	}
+	return
+}
+
+func deferLockOp(s ast.Stmt) (mu, op string, ok bool) {
+	if ds, isDefer := s.(*ast.DeferStmt); isDefer {
+		return lockOp(ds.Call)
+	}
+	return
+}
+
+func rank(m string) int {
+	switch m {
+	case "W":
+		return 2
+	case "R":
+		return 1
+	}
+	return 0
+}
+
+type analyzer struct {
+	funcs    map[string]bool
+	rows     []*row
+	consumed map[ast.Node]bool // lock-operation call expressions that were matched by a pattern
+}
+
+// escapes reports whether the statements can leave a paired region other than by falling through,
+// or touch the same mutex again. Function literals are not entered.
+func escapes(stmts []ast.Stmt, mu string) bool {
+	bad := false
+	for _, st := range stmts {
+		ast.Inspect(st, func(n ast.Node) bool {
+			switch x := n.(type) {
+			case *ast.FuncLit:
+				return false
+			case *ast.ReturnStmt, *ast.GoStmt, *ast.DeferStmt:
+				bad = true
+			case *ast.BranchStmt:
+				bad = true
+			case *ast.CallExpr:
+				if id, ok := x.Fun.(*ast.Ident); ok && id.Name == "panic" {
+					bad = true
+				}
+				if m, _, ok := lockOp(x); ok && m == mu {
+					bad = true
+				}
+			}
+			return true
+		})
+	}
+	return bad
+}
+
+// scan finds the lock regions of one function scope (body of a FuncDecl or FuncLit). Nested function
+// literals are scanned as scopes of their own (their defers run at their own end); `go` closures are
+// cut out into rows of their own by the caller and are not entered here.
+func (a *analyzer) scan(r *row, body *ast.BlockStmt, goLits map[*ast.FuncLit]bool) {
+	scopeEnd := body.End()
+	var lists func(n ast.Node)
+	doList := func(list []ast.Stmt) {
+		for i, st := range list {
+			mu, op, ok := stmtLockOp(st)
+			if !ok || (op != "Lock" && op != "RLock") {
+				continue
+			}
+			mode, unlock := "W", "Unlock"
+			if op == "RLock" {
+				mode, unlock = "R", "RUnlock"
+			}
+			callExpr := st.(*ast.ExprStmt).X
+			if r.held(mu, st.Pos()) != "" {
+				r.structured = false // acquired again inside a region of the same mutex: self-deadlock
+			}
+			// pattern A: directly followed by the deferred release
+			if i+1 < len(list) {
+				if m2, op2, ok2 := deferLockOp(list[i+1]); ok2 && m2 == mu && op2 == unlock {
+					r.regions = append(r.regions, region{mu, mode, st.End(), scopeEnd})
+					a.consumed[callExpr] = true
+					a.consumed[list[i+1].(*ast.DeferStmt).Call] = true
+					// a second operation on this mutex later in the scope would be inside the region
+					if escapesLockOnly(list[i+2:], mu) {
+						r.structured = false
+					}
+					continue
+				}
+			}
+			// pattern B: paired with a later release in the same statement list
+			matched := false
+			for j := i + 1; j < len(list); j++ {
+				if m2, op2, ok2 := stmtLockOp(list[j]); ok2 && m2 == mu {
+					if op2 == unlock && !escapes(list[i+1:j], mu) {
+						r.regions = append(r.regions, region{mu, mode, st.End(), list[j].Pos()})
+						a.consumed[callExpr] = true
+						a.consumed[list[j].(*ast.ExprStmt).X] = true
+						matched = true
+					}
+					break
+				}
+			}
+			if !matched {
+				r.structured = false
+			}
+		}
+	}
+	lists = func(n ast.Node) {
+		ast.Inspect(n, func(x ast.Node) bool {
+			switch y := x.(type) {
+			case *ast.FuncLit:
+				if goLits[y] {
+					return false
+				}
+				if y.Body != body {
+					a.scan(r, y.Body, goLits)
+					return false
+				}
+			case *ast.BlockStmt:
+				doList(y.List)
+			case *ast.CaseClause:
+				doList(y.Body)
+			case *ast.CommClause:
+				doList(y.Body)
+			}
+			return true
+		})
+	}
+	lists(body)
+}
+
+// escapesLockOnly: is there another operation on the mutex (outside function literals)?
+func escapesLockOnly(stmts []ast.Stmt, mu string) bool {
+	bad := false
+	for _, st := range stmts {
+		ast.Inspect(st, func(n ast.Node) bool {
+			switch x := n.(type) {
+			case *ast.FuncLit:
+				return false
+			case *ast.CallExpr:
+				if m, _, ok := lockOp(x); ok && m == mu {
+					bad = true
+				}
+			}
+			return true
+		})
+	}
+	return bad
+}
+
+func (r *row) held(mu string, pos token.Pos) string {
+	best := ""
+	for _, g := range r.regions {
+		if g.mu == mu && g.from <= pos && pos < g.to && rank(g.mode) > rank(best) {
+			best = g.mode
+		}
+	}
+	return best
+}
+
+// analyse builds the row of one function scope and, recursively, the rows of its `go` closures.
+func (a *analyzer) analyse(name string, body *ast.BlockStmt) {
+	r := &row{name: name, structured: true}
+	a.rows = append(a.rows, r)
+	// `go func(){…}()` closures run in another goroutine: rows of their own
+	goLits := map[*ast.FuncLit]bool{}
+	goCalls := map[*ast.CallExpr]bool{} // `go f(x)`: the callee does not inherit the caller's locks
+	n := 0
+	ast.Inspect(body, func(x ast.Node) bool {
+		if g, ok := x.(*ast.GoStmt); ok {
+			if fl, ok := g.Call.Fun.(*ast.FuncLit); ok && !goLits[fl] {
+				goLits[fl] = true
+				n++
+				a.analyse(fmt.Sprintf("%s$go%d", name, n), fl.Body)
+				return false
+			}
+			goCalls[g.Call] = true
+		}
+		return true
+	})
+	a.scan(r, body, goLits)
+	// writes: selectors that are (the base of) an assignment target, inc/dec, delete, or whose address is taken
+	wr := map[ast.Node]bool{}
+	var markW func(e ast.Expr)
+	markW = func(e ast.Expr) {
+		switch x := e.(type) {
+		case *ast.SelectorExpr:
+			wr[x] = true
+		case *ast.IndexExpr:
+			markW(x.X)
+		case *ast.ParenExpr:
+			markW(x.X)
+		case *ast.StarExpr:
+			markW(x.X)
+		}
+	}
+	walk := func(f func(ast.Node) bool) {
+		ast.Inspect(body, func(x ast.Node) bool {
+			if fl, ok := x.(*ast.FuncLit); ok && goLits[fl] {
+				return false
+			}
+			return f(x)
+		})
+	}
+	walk(func(x ast.Node) bool {
+		switch y := x.(type) {
+		case *ast.AssignStmt:
+			for _, l := range y.Lhs {
+				markW(l)
+			}
+		case *ast.IncDecStmt:
+			markW(y.X)
+		case *ast.CallExpr:
+			if id, ok := y.Fun.(*ast.Ident); ok && id.Name == "delete" && len(y.Args) > 0 {
+				markW(y.Args[0])
+			}
+		}
+		return true
+	})
+	walk(func(x ast.Node) bool {
+		switch y := x.(type) {
+		case *ast.CallExpr:
+			if _, _, ok := lockOp(y); ok {
+				if !a.consumed[y] {
+					r.structured = false // an acquisition / release outside the two accepted patterns
+				}
+				return true
+			}
+			callee := ""
+			if sel, ok := y.Fun.(*ast.SelectorExpr); ok && a.funcs[sel.Sel.Name] {
+				callee = sel.Sel.Name
+			} else if id, ok := y.Fun.(*ast.Ident); ok && a.funcs[id.Name] {
+				callee = id.Name
+			}
+			if callee != "" {
+				c := call{callee: callee, held: map[string]string{}, pos: y.Pos()}
+				if !goCalls[y] {
+					for _, mu := range muOrder {
+						if h := r.held(mu, y.Pos()); h != "" {
+							c.held[mu] = h
+						}
+					}
+				}
+				r.calls = append(r.calls, c)
+			}
+		case *ast.SelectorExpr:
+			if g := protected[y.Sel.Name]; g != "" {
+				r.accesses = append(r.accesses, access{y.Sel.Name, wr[y], r.held(g, y.Pos())})
+			}
+		}
+		return true
+	})
 }
 
 func main() {
@@ -48,110 +354,61 @@ func main() {
 			pkgs[dir+"/"+k] = v
 		}
 	}
-	var rows []*row
-	funcs := map[string]bool{}
+	a := &analyzer{funcs: map[string]bool{}, consumed: map[ast.Node]bool{}}
 	for _, p := range pkgs {
 		for _, f := range p.Files {
 			for _, d := range f.Decls {
 				if fd, ok := d.(*ast.FuncDecl); ok {
-					funcs[fd.Name.Name] = true
+					a.funcs[fd.Name.Name] = true
 				}
 			}
 		}
 	}
-	for _, p := range pkgs {
-		for _, f := range p.Files {
-			for _, d := range f.Decls {
+	var pkgKeys []string
+	for k := range pkgs {
+		pkgKeys = append(pkgKeys, k)
+	}
+	sort.Strings(pkgKeys)
+	for _, pk := range pkgKeys {
+		p := pkgs[pk]
+		var fileKeys []string
+		for k := range p.Files {
+			fileKeys = append(fileKeys, k)
+		}
+		sort.Strings(fileKeys)
+		for _, fk := range fileKeys {
+			for _, d := range p.Files[fk].Decls {
 				fd, ok := d.(*ast.FuncDecl)
 				if !ok || fd.Body == nil {
 					continue
 				}
-				r := &row{name: fd.Name.Name, lock: "none", locks: map[string]string{}, reads: map[string]bool{}, writes: map[string]bool{}, calls: map[string]bool{}}
+				name := fd.Name.Name
 				if fd.Recv != nil && len(fd.Recv.List) > 0 {
 					t := fd.Recv.List[0].Type
 					if s, ok := t.(*ast.StarExpr); ok {
 						t = s.X
 					}
 					if id, ok := t.(*ast.Ident); ok {
-						r.name = id.Name + "." + fd.Name.Name
+						name = id.Name + "." + fd.Name.Name
 					}
 				}
-				// writes: selectors that are (the base of) an assignment target, inc/dec or delete
-				wr := map[ast.Node]bool{}
-				var markW func(e ast.Expr)
-				markW = func(e ast.Expr) {
-					switch x := e.(type) {
-					case *ast.SelectorExpr:
-						wr[x] = true
-					case *ast.IndexExpr:
-						markW(x.X)
-					case *ast.ParenExpr:
-						markW(x.X)
-					}
-				}
-				ast.Inspect(fd.Body, func(n ast.Node) bool {
-					switch x := n.(type) {
-					case *ast.AssignStmt:
-						for _, l := range x.Lhs {
-							markW(l)
-						}
-					case *ast.IncDecStmt:
-						markW(x.X)
-					case *ast.CallExpr:
-						if id, ok := x.Fun.(*ast.Ident); ok && id.Name == "delete" && len(x.Args) > 0 {
-							markW(x.Args[0])
-						}
-					}
-					return true
-				})
-				ast.Inspect(fd.Body, func(n ast.Node) bool {
-					switch x := n.(type) {
-					case *ast.CallExpr:
-						if sel, ok := x.Fun.(*ast.SelectorExpr); ok {
-							if inner, ok := sel.X.(*ast.SelectorExpr); ok && mutexes[inner.Sel.Name] {
-								switch sel.Sel.Name {
-								case "Lock":
-									r.locks[inner.Sel.Name] = "W"
-								case "RLock":
-									if r.locks[inner.Sel.Name] == "" {
-										r.locks[inner.Sel.Name] = "R"
-									}
-								}
-							}
-							if funcs[sel.Sel.Name] {
-								r.calls[sel.Sel.Name] = true
-							}
-						} else if id, ok := x.Fun.(*ast.Ident); ok && funcs[id.Name] {
-							r.calls[id.Name] = true
-						}
-					case *ast.SelectorExpr:
-						if protected[x.Sel.Name] != "" {
-							if wr[x] {
-								r.writes[x.Sel.Name] = true
-							} else {
-								r.reads[x.Sel.Name] = true
-							}
-						}
-					}
-					return true
-				})
-				if len(r.reads)+len(r.writes) > 0 || len(r.locks) > 0 || len(r.calls) > 0 {
-					rows = append(rows, r)
-				}
+				a.analyse(name, fd.Body)
 			}
 		}
 	}
-	sort.Slice(rows, func(i, j int) bool { return rows[i].name < rows[j].name })
-	// keep only rows that matter: those that access protected fields, or (transitively) call such rows
+	rows := a.rows
+	sort.SliceStable(rows, func(i, j int) bool { return rows[i].name < rows[j].name })
 	short := func(n string) string {
 		if i := strings.Index(n, "."); i >= 0 {
-			return n[i+1:]
+			n = n[i+1:]
 		}
 		return n
 	}
+	// keep only rows that matter: those that access protected fields, are unstructured, or
+	// (transitively) call such rows
 	relevant := map[string]bool{}
 	for _, r := range rows {
-		if len(r.reads)+len(r.writes) > 0 {
+		if len(r.accesses) > 0 || !r.structured {
 			relevant[short(r.name)] = true
 		}
 	}
@@ -161,28 +418,20 @@ func main() {
 			if relevant[short(r.name)] {
 				continue
 			}
-			for c := range r.calls {
-				if relevant[c] {
+			for _, c := range r.calls {
+				if relevant[c.callee] {
 					relevant[short(r.name)] = true
 					changed = true
 				}
 			}
 		}
 	}
-	keys := func(m map[string]bool, filter map[string]bool) string {
-		var l []string
-		for k := range m {
-			if filter == nil || filter[k] {
-				l = append(l, fmt.Sprintf("%q", k))
-			}
-		}
-		sort.Strings(l)
-		return "[" + strings.Join(l, ", ") + "]"
-	}
 	var b strings.Builder
-	b.WriteString("/-! GENERATED by go/extract/lockset from pkg/station/lib (go/ast facts) — do not edit. -/\nnamespace CJ.Gen\n\n")
+	b.WriteString("/-! GENERATED by go/extract/lockset from pkg/station/lib and cmd/application (go/ast facts) — do not edit. -/\nnamespace CJ.Gen\n\n")
 	b.WriteString("inductive LockMode | none | R | W\nderiving DecidableEq, Repr\n\n")
-	b.WriteString("structure FnFacts where\n  name : String\n  short : String\n  locks : List (String × LockMode)\n  reads : List String\n  writes : List String\n  calls : List String\nderiving Repr\n\n")
+	b.WriteString("/-- one access to a protected field: written or read, and the mode in which the function itself holds\nthe guarding mutex at that position -/\nstructure Access where\n  field : String\n  write : Bool\n  held : LockMode\nderiving Repr\n\n")
+	b.WriteString("/-- one call of a package function (by short name) and the mutexes the caller holds at the call -/\nstructure CallSite where\n  callee : String\n  held : List (String × LockMode)\nderiving Repr\n\n")
+	b.WriteString("structure FnFacts where\n  name : String\n  short : String\n  /-- lock regions of the function: mutex and mode -/\n  locks : List (String × LockMode)\n  /-- every acquisition follows one of the two accepted patterns and every release is matched -/\n  structured : Bool\n  accesses : List Access\n  calls : List CallSite\nderiving Repr\n\n")
 	b.WriteString("/-- which mutex field guards which protected field -/\ndef guardOf : List (String × String) := [")
 	{
 		var ks []string
@@ -198,6 +447,12 @@ func main() {
 		}
 	}
 	b.WriteString("]\n\n")
+	mode := func(m string) string {
+		if m == "" {
+			return ".none"
+		}
+		return "." + m
+	}
 	b.WriteString("def lockTable : List FnFacts := [\n")
 	first := true
 	for _, r := range rows {
@@ -209,12 +464,39 @@ func main() {
 		}
 		first = false
 		var ls []string
-		for _, mu := range []string{"m", "policyMu", "reloadMu"} {
-			if md := r.locks[mu]; md != "" {
-				ls = append(ls, fmt.Sprintf("(%q, .%s)", mu, md))
-			}
+		for _, g := range r.regions {
+			ls = append(ls, fmt.Sprintf("(%q, .%s)", g.mu, g.mode))
 		}
-		fmt.Fprintf(&b, "  { name := %q, short := %q, locks := [%s], reads := %s, writes := %s, calls := %s }", r.name, short(r.name), strings.Join(ls, ", "), keys(r.reads, nil), keys(r.writes, nil), keys(r.calls, relevant))
+		// accesses: canonical (deduplicated, sorted)
+		accSet := map[string]bool{}
+		for _, x := range r.accesses {
+			accSet[fmt.Sprintf("{ field := %q, write := %v, held := %s }", x.field, x.write, mode(x.held))] = true
+		}
+		var acc []string
+		for k := range accSet {
+			acc = append(acc, k)
+		}
+		sort.Strings(acc)
+		callSet := map[string]bool{}
+		for _, c := range r.calls {
+			if !relevant[c.callee] {
+				continue
+			}
+			var hs []string
+			for _, mu := range muOrder {
+				if h := c.held[mu]; h != "" {
+					hs = append(hs, fmt.Sprintf("(%q, .%s)", mu, h))
+				}
+			}
+			callSet[fmt.Sprintf("{ callee := %q, held := [%s] }", c.callee, strings.Join(hs, ", "))] = true
+		}
+		var cs []string
+		for k := range callSet {
+			cs = append(cs, k)
+		}
+		sort.Strings(cs)
+		fmt.Fprintf(&b, "  { name := %q, short := %q, locks := [%s], structured := %v,\n    accesses := [%s],\n    calls := [%s] }",
+			r.name, short(r.name), strings.Join(ls, ", "), r.structured, strings.Join(acc, ", "), strings.Join(cs, ", "))
 	}
 	b.WriteString("\n]\n\nend CJ.Gen\n")
 	if err := os.WriteFile(out, []byte(b.String()), 0o644); err != nil {
